@@ -1047,9 +1047,9 @@ func main() {
 		return
 	}
 
-	histories := 1200 * o.Scale
+	histories := 1000 * o.Scale
 	if o.Tier == "thorough" {
-		histories = 6000 * o.Scale
+		histories = 4000 * o.Scale
 	}
 	rng := hx.NewRand(o.Seed)
 	for h := 0; h < histories && len(res.Findings) == 0; h++ {
